@@ -202,6 +202,7 @@ def main():
     notes = []
     verus_results = []
     twin_results = []
+    twin_rlimit = 3
     units = cfg.get('units', [])
     harnesses = list(cfg.get('kani_quick', []))
     if tier == 'thorough':
